@@ -107,6 +107,7 @@ class Tuple(ContainNestedFieldMixin, TypedField, metaclass=_CollectionMeta):
             res.append(getattr(temp_st, getattr(item, "_name")))
             res += value[len(items) :]
         value = tuple(res)
+        verify_type_and_uniqueness(tuple, value, self._name, self.uniqueItems)
 
         super().__set__(instance, value)
 
